@@ -26,6 +26,12 @@ func init() {
 
 func (Engine) Name() string { return "vsssim" }
 func (Engine) Runs(prop, tier string) int {
+	if prop == "C04" {
+		if tier == "thorough" {
+			return 60000
+		}
+		return 5000
+	}
 	if tier == "thorough" {
 		return 250000
 	}
@@ -144,6 +150,10 @@ func (Engine) RunOne(t *core.Tape, prop, tier string, info *core.RunInfo) *core.
 	th := t.Range("cfg", 2, n)
 	honestClass := t.Bool("cfg.class", 120)
 	malDealer := !honestClass && t.Bool("cfg", 500)
+	c04 := prop == "C04" // deciding C04: every run has a dealer that encrypts damaged plaintexts, and a corrupting network
+	if c04 {
+		honestClass, malDealer = false, true
+	}
 	nByz := 0
 	if !honestClass && n-th > 0 && t.Bool("cfg", 500) {
 		nByz = 1 + t.Intn("cfg", n-th)
@@ -152,7 +162,7 @@ func (Engine) RunOne(t *core.Tape, prop, tier string, info *core.RunInfo) *core.
 	corruptPm := 0
 	if !honestClass {
 		cfg = kit.DrawNetCfg(t, true)
-		if t.Bool("cfg", 250) {
+		if t.Bool("cfg", 250) || prop == "C04" {
 			corruptPm = 30 + t.Intn("cfg", 150)
 		}
 	}
@@ -205,6 +215,9 @@ func (Engine) RunOne(t *core.Tape, prop, tier string, info *core.RunInfo) *core.
 		kind := "honest"
 		if malDealer && t.Bool("byz.deal", 550) {
 			kind = dealKinds[1+t.Intn("byz.deal", len(dealKinds)-1)]
+		}
+		if c04 && t.Bool("byz.deal", 700) {
+			kind = "garbage-plaintext"
 		}
 		plain := dealer.Plain(i)
 		var e *Enc
